@@ -186,6 +186,7 @@ def gen_tl(rnd, idx):
     text += "class Ag2 : Ag { predicate Wave() : Interval { } predicate Blink() : Impulse { } }\nAg2 ag2 = new Ag2();\n"
     text += "class SV2 : StateVariable { predicate E() { } }\nSV2 sv2 = new SV2();\n"
     text += "predicate E0() : Interval { }\n"
+    text += "class Bat : ConsumableResource { Bat(real i, real c) : ConsumableResource(i, c) {} predicate Drain() : Consume { duration >= 1.0; } predicate Charge() : Produce { } }\nBat bat = new Bat(2.0, 10.0);\n"
     stmts = []
     n = rnd.randint(2, 7)
     for i in range(n):
@@ -194,7 +195,7 @@ def gen_tl(rnd, idx):
         nm = "t%d" % i
         if c < 0.45 and rnd.random() < 0.5:
             what = rnd.choice(["cam.Rec(q:2.0)", "cam.Shot()", "cam.Idle()", "cam.Ses()", "cam2.Pan(a:1.0)", "cam2.Rec(q:3.0)", "cam2.Shot()", "ag2.Wave()", "ag2.Blink()", "ag2.Act(k:2.0)",
-                               "sv2.E()", "E0()"])
+                               "sv2.E()", "E0()", "bat.Drain(amount:1.0)", "bat.Charge(amount:2.0)"])
             if "Ses" in what:
                 kind = "goal"
             stmts.append("%s %s = new %s;" % (kind, nm, what))
@@ -310,6 +311,7 @@ def gen_sx(rnd, idx):
     T = rnd.randint(4, 10)
     atoms = []
     stmts = []
+    bounds = []
     for i in range(n):
         typ = "rr" if nrr and rnd.random() < 0.45 else "sv"
         cands = [j for j, x in enumerate(insts) if x["type"] == typ]
@@ -356,6 +358,7 @@ def gen_sx(rnd, idx):
         stmts.append("%s %s = new %s.%s(%s);" % (a["kind"], a["name"], scope, a["pred"], ", ".join(args)))
         stmts += cons
         atoms.append(a)
+        bounds.append(len(stmts))
     prec = []
     for _ in range(rnd.choice([0, 0, 1, 2])):
         i, j = rnd.sample(range(n), 2)
@@ -363,8 +366,10 @@ def gen_sx(rnd, idx):
         stmts.append("a%d.end <= a%d.start;" % (i, j))
     H = Fraction(rnd.randint(T + 1, T + 12))
     stmts.append("horizon <= %s;" % f2(H))
+    k = bounds[rnd.randrange(len(bounds) - 1)] if len(bounds) > 1 else None
+    parts = [text + "\n".join(stmts[:k]) + "\n", "\n".join(stmts[k:]) + "\n"] if k else None
     text += "\n".join(stmts) + "\n"
-    return {"family": "sx", "id": "sx-%d" % idx, "text": text, "atoms": atoms, "insts": insts, "planted": False,
+    return {"family": "sx", "id": "sx-%d" % idx, "text": text, "atoms": atoms, "insts": insts, "planted": False, "parts": parts,
             "spec": {"atoms": atoms, "insts": insts, "prec": prec, "horizon": H}}
 
 
@@ -390,3 +395,65 @@ def gen_cyc(rnd, idx):
     stmts.append("goal c = new %s();" % C)
     rnd.shuffle(stmts)
     return {"family": "cyc", "id": "cyc-%d" % idx, "text": text + "\n".join(stmts) + "\n", "planted": True}
+
+
+def gen_sync(rnd, idx):
+    """atoms on different timelines tied together by relative temporal constraints (windows between starts / ends, equalities, precedences): delaying or
+    freezing one of them puts pressure on the others.  Built around a planted schedule."""
+    text = "class Arm : StateVariable {\n    predicate Reach(real x) { duration >= 2.0; }\n    predicate Hold(real x) { duration >= 1.0; }\n}\n"
+    text += "class Cam : Agent {\n    predicate Rec(real k) : Interval { duration >= 1.0; }\n    predicate Snap() : Impulse { }\n}\n"
+    text += "Arm arm0 = new Arm();\nArm arm1 = new Arm();\nCam cam = new Cam();\n"
+    n = rnd.randint(2, 5)
+    atoms = []
+    tcur = {"arm0": Fraction(rnd.randint(0, 2)), "arm1": Fraction(rnd.randint(0, 2))}
+    stmts = []
+    for i in range(n):
+        c = rnd.random()
+        nm = "a%d" % i
+        if c < 0.55:
+            inst = rnd.choice(["arm0", "arm1"])
+            pred, dmin = rnd.choice([("Reach", 2), ("Hold", 1)])
+            s = tcur[inst] + rnd.choice([0, 1, 2])
+            e = s + dmin + rnd.choice([0, 1, 3])
+            tcur[inst] = e
+            atoms.append({"name": nm, "start": s, "end": e})
+            stmts.append("goal %s = new %s.%s(x:%d.0);" % (nm, inst, pred, i))
+        elif c < 0.85:
+            s = Fraction(rnd.randint(0, 8))
+            e = s + 1 + rnd.choice([0, 1, 2])
+            atoms.append({"name": nm, "start": s, "end": e})
+            stmts.append("%s %s = new cam.Rec(k:%d.0);" % (rnd.choice(["goal", "fact"]), nm, i))
+        else:
+            s = Fraction(rnd.randint(0, 10))
+            atoms.append({"name": nm, "at": s})
+            stmts.append("%s %s = new cam.Snap();" % (rnd.choice(["goal", "fact"]), nm))
+
+    def pt(a):
+        if "at" in a:
+            return a["name"] + ".at", a["at"]
+        k = rnd.choice(["start", "end"])
+        return a["name"] + "." + k, a[k]
+    horizon = max([a.get("end", a.get("at")) for a in atoms])
+    for a in atoms:
+        p, v = pt(a)
+        if rnd.random() < 0.6:
+            stmts.append("%s >= %s;" % (p, f2(max(Z, v - rnd.choice([0, 0, 1, 2])))))
+    for _ in range(rnd.randint(1, 4)):
+        if len(atoms) < 2:
+            break
+        a, b = rnd.sample(atoms, 2)
+        (pa, va), (pb, vb) = pt(a), pt(b)
+        d = vb - va
+        c = rnd.random()
+        if c < 0.4:
+            lo, hi = d - rnd.choice([0, 0, 1]), d + rnd.choice([0, 1, 2])
+            stmts.append("%s >= %s + %s;" % (pb, pa, f2(lo)) if lo >= 0 else "%s + %s >= %s;" % (pb, f2(-lo), pa))
+            stmts.append("%s <= %s + %s;" % (pb, pa, f2(hi)) if hi >= 0 else "%s + %s <= %s;" % (pb, f2(-hi), pa))
+        elif c < 0.6:
+            stmts.append("%s == %s + %s;" % (pb, pa, f2(d)) if d >= 0 else "%s + %s == %s;" % (pb, f2(-d), pa))
+        elif d >= 0:
+            stmts.append("%s <= %s;" % (pa, pb))
+        else:
+            stmts.append("%s <= %s;" % (pb, pa))
+    stmts.append("horizon <= %s;" % f2(horizon + rnd.choice([2, 5, 10, 20])))
+    return {"family": "sync", "id": "sync-%d" % idx, "text": text + "\n".join(stmts) + "\n", "planted": True}
